@@ -1080,6 +1080,41 @@ func genBreaker(r *vlib.R, emit func(string), n *int, sessions int) {
 			}
 			*n--
 		}
+		// trip one address (five or more failures in a row), then ask around the 30 s mark
+		victim := vlib.Pick(r, servers)
+		for i := 5 + r.Intn(3); i > 0; i-- {
+			emit(fmt.Sprintf("fail cb %d fail %s", vlib.Pick(r, []int64{0, 0, 1, 2}), victim))
+			*n--
+		}
+		at := int64(0)
+		for _, target := range []int64{0, 1, 27, 28, 30, 31, 33, 60, 89, 91, 120, 299, 301} {
+			if r.Chance(1, 3) {
+				continue
+			}
+			emit(fmt.Sprintf("fail cb %d can %s", target-at, victim))
+			*n--
+			at = target
+			if target >= 30 { // re-admitted: fail again a few times, or succeed
+				switch r.Intn(4) {
+				case 0:
+					emit(fmt.Sprintf("fail cb 0 ok %s", victim))
+					*n--
+				case 1:
+					for i := 5; i > 0; i-- {
+						emit(fmt.Sprintf("fail cb 0 fail %s", victim))
+						*n--
+					}
+					at = 0
+					emit(fmt.Sprintf("fail cb 2 can %s", victim))
+					emit(fmt.Sprintf("fail cb 29 can %s", victim)) // 31 s after the last failure
+					*n -= 2
+					at = 31
+				}
+				break
+			}
+		}
+		emit("fail cb 400 clean")
+		*n--
 	}
 }
 
